@@ -235,6 +235,16 @@ def apply_real(u, op):
         u.obj[4] = u.K[1]()
     elif k == 'query':
         pass
+    elif k == 'squery':
+        # an earlier query *through super()*: for every live instance and every class of its MRO (it fills the per-class
+        # cache of super specifications; what it answers is C19's business - here it is only part of the history)
+        from zope.interface import providedBy
+        for o in u.live_objs():
+            ob = u.obj[o]
+            if isinstance(ob, type):
+                continue
+            for C in type(ob).__mro__[:-1]:
+                list(providedBy(super(C, ob)).flattened())
     else:
         raise ValueError(op)
     return False
@@ -292,6 +302,8 @@ def run_history(ops):
             mop = {'impl': ('implementer', SLOT_S, op[2]), 'only': ('implementer_only', SLOT_S, op[2]),
                    'prov': ('query',)}[op[1]]
             states = step(states, mop)
+        elif op[0] == 'squery':
+            states = step(states, ('query',))
         else:
             states = step(states, op)
         if op[0] == 'noLongerProvides':
@@ -299,7 +311,7 @@ def run_history(ops):
             if not states:
                 raise Violation('history [%s]: noLongerProvides %s ValueError, but no admissible state agrees' % (
                     '; '.join(hist), 'raised' if raised else 'did not raise'), signature='C01:noLongerProvides-valueerror')
-        if op[0] == 'query' or k == len(ops) - 1:
+        if op[0] in ('query', 'squery') or k == len(ops) - 1:
             obs = observe(u)
             ok = {}
             worst = None
@@ -347,7 +359,7 @@ def alphabet(full):
                 ('classImplementsOnly', 1, 2), ('classImplementsOnly', 1, 0),
                 ('directlyProvides', 0, (0,)), ('directlyProvides', 1, (0,)), ('directlyProvides', 0, (1,)),
                 ('alsoProvides', 0, 1), ('alsoProvides', 1, 0), ('noLongerProvides', 0, 0), ('directlyProvides', 0, ()),
-                ('directlyProvides', 0, (0, 2)), ('directlyProvides', 1, (0, 2)), ('query',)]
+                ('directlyProvides', 0, (0, 2)), ('directlyProvides', 1, (0, 2)), ('query',), ('squery',)]
     else:
         ops += [('classImplements', 0, 0), ('classImplements', 0, 1), ('classImplements', 1, 0), ('classImplements', 1, 2),
                 ('classImplements', 4, 2), ('classImplementsOnly', 0, 2), ('classImplementsOnly', 1, 0),
@@ -356,7 +368,7 @@ def alphabet(full):
                 ('directlyProvides', 3, (2,)), ('directlyProvides', 0, ()), ('directlyProvides', 5, (2,)),
                 ('alsoProvides', 0, 0), ('alsoProvides', 0, 1), ('alsoProvides', 0, 2), ('alsoProvides', 3, 1),
                 ('noLongerProvides', 0, 0), ('noLongerProvides', 0, 1), ('directlyProvides', 4, (0,)),
-                ('newsub', None, 2), ('newsub', 'only', 2), ('newinst',), ('query',)]
+                ('newsub', None, 2), ('newsub', 'only', 2), ('newinst',), ('query',), ('squery',)]
     return ops
 
 
